@@ -111,7 +111,8 @@ def observe(a, b, result, json_result):
     # title
     import html5_parser as hp
     b_soup = hp.parse(b, treebuilder='soup', return_root=False)
-    want_title = (b_soup.title and b_soup.title.string) or ''
+    import render_lib
+    want_title = render_lib.page_title(b_soup)
     got_title = soup.title.get_text() if soup.title else None
     if got_title is None or got_title.strip() != want_title.strip():
         fails.append('document title %r is not the new page title %r' % (got_title, want_title))
@@ -185,6 +186,9 @@ def run(rep, ctx):
     pairs = [gen_pair(rng) for _ in range(n)]
     pairs += [('<a href="/x">&lt;script&gt;alert(1)&lt;/script&gt;</a>', '<title>&lt;/title&gt;&lt;script&gt;alert(2)&lt;/script&gt;</title><a href="/x">&lt;script&gt;alert(1)&lt;/script&gt; more</a>'),
               ('<a href="/a">same</a>', '<a href="/a">same</a>'), ('', ''), ('<p>no links</p>', '<a href="/new">n</a>'),
+              # a <title> that belongs to an embedded graphic is not the page's title
+              ('<title>Old</title><a href="/a">x</a>', '<html><head></head><body><svg><title>Icon</title><circle r="1"/></svg><a href="/a">x</a> <a href="/b">y</a></body></html>'),
+              ('<a href="/a">x</a>', '<html><head><title>Real</title></head><body><a href="/a"><svg><title>Logo</title></svg>x</a><math><title>m</title></math></body></html>'),
               # changed entries in which BOTH the text (only in letter case, so the links still match roughly) and the target change
               ('<a href="/reports/2016">Annual Report</a> <a href="/reports/archive">Annual Report</a>', '<a href="/reports/2017">ANNUAL REPORT</a> <a href="/reports/archive">Annual Report</a>'),
               ('<a href="/n/1">news</a><a href="/n/2">News</a><a href="/n/3">NEWS</a>', '<a href="/n/4">NEWS</a><a href="/n/2">News</a><a href="/n/5">news item</a>'),
@@ -226,7 +230,8 @@ def run(rep, ctx):
                     if n_obs <= 3:
                         rep.violation('c10-view-%d' % n_obs, {'what': fails[:4], 'a_text': a, 'b_text': b, 'call': 'links_diff_html(a_text, b_text)'})
                 b_soup = html5_parser.parse(b, treebuilder='soup', return_root=False)
-                title = (b_soup.title and b_soup.title.string) or ''
+                import render_lib
+                title = render_lib.page_title(b_soup)
                 lines.append(model_line(js, title, get_color_palette()))
                 wanted.append((a, b, res['diff']))
         finally:
